@@ -27,10 +27,12 @@ FLOORS = {
               'stopped_by_cap': 20, 'countpass_checked': 30, 'twin_histories': 60, 'twin_compares': 1500,
               'channel:args': 20, 'channel:mem': 20, 'channel:xlsx': 10, 'channel:json': 4,
               'channel:yml': 4, 'channel:pkl': 4, 'via_range': 20, 'twin_writes': 200,
-              'second_call_without_arguments': 10},
+              'second_call_without_arguments': 10, 'twins_with_reference_valued_cells': 20},
     'thorough': {'systems': 2500, 'stopped_by_tolerance': 1200, 'stopped_by_cap': 500,
                  'twin_histories': 1500, 'twin_compares': 40000},
 }
+for _tier in FLOORS:
+    FLOORS[_tier]['suite:tests'] = 2000          # the repository's own suite ran under the monitors
 ASSUMPTIONS = [
     'ExcelCompiler(excel=openpyxl_wb, cycles={...}) replaces the dict by the workbook settings; requests are '
     'made through evaluate(...) arguments, calcPr, or a deserialised model only',
@@ -268,6 +270,30 @@ def systems(ctx, rng):
 
 # --------------------------------------------------------------------------- acyclic twins
 
+def add_reference_cells(rng, spec, meta):
+    """cells which show a reference made at run time (=OFFSET(x,0,0)) onto formula cells, and a reader of one of them:
+    what they show follows the cell referred to in both modes"""
+    first = spec['sheets'][0][0]
+    members = wb.array_members(spec)
+    fcells = sorted(a for a in meta['formulas'] if a.startswith(first + '!') and a not in members and
+                    meta['formulas'][a]['form'] not in ('cse', 'cse-consumer'))
+    if not fcells:
+        return spec, meta
+    spec = dict(spec, sheets=[[s_, dict(c)] for s_, c in spec['sheets']])
+    meta = dict(meta, formulas=dict(meta['formulas']), order=list(meta['order']))
+    cells = spec['sheets'][0][1]
+    for k, target in enumerate(rng.sample(fcells, min(2, len(fcells)))):
+        coord_ = target.rsplit('!', 1)[1]
+        here = f'{"AB"[k]}8'
+        cells[here] = f'=OFFSET({coord_},0,0)'
+        meta['formulas'][f'{first}!{here}'] = {'form': 'reference-cell', 'deps': [target]}
+        meta['order'].append(f'{first}!{here}')
+    cells['C8'] = '=ISNUMBER(A8)&"/"&ISTEXT(A8)'
+    meta['formulas'][f'{first}!C8'] = {'form': 'reference-cell-reader', 'deps': [f'{first}!A8']}
+    meta['order'].append(f'{first}!C8')
+    return spec, meta
+
+
 def one_twin(ctx, spec, meta, channel, ops=None, rng=None, n_ops=14):
     install()
     iter_spec = dict(spec, calc={'iterate': True, 'count': 100, 'delta': 0.001})
@@ -398,6 +424,10 @@ def _twin_history(ctx, spec, meta, channel, plain, it, ops, rng, n_ops):
 
 
 def run(ctx):
+    if ctx.shard == ctx.nshards - 1:
+        # the repository's own test-suite as one more workload under the monitors (vp.suitemon)
+        from vp import suiteload
+        suiteload.run_suite(ctx)
     rng = ctx.rng
     i = 0
     while not ctx.out_of_time():
@@ -409,11 +439,18 @@ def run(ctx):
             if any(o[0] == 'x' for o in wb.fresh_values(spec).values()):
                 ctx.count('skipped_workbooks_with_failing_cells')
                 continue
+            if i % 2 == 0:
+                spec, meta = add_reference_cells(rng, spec, meta)
+                ctx.count('twins_with_reference_valued_cells')
             one_twin(ctx, spec, meta, rng.choice(['mem', 'mem', 'xlsx', 'json', 'pkl']), rng=rng,
                      n_ops=rng.randint(8, 16))
 
 
 def replay(ctx, case):
+    if case.get('kind') == 'suite':
+        from vp import suiteload
+        suiteload.run_suite(ctx)
+        return
     if case['kind'] == 'system':
         one_system(ctx, case['spec'], case['info'], case['channel'], tuple(case['settings']),
                    case['target'], case['plugin'], case.get('container'))
